@@ -66,21 +66,25 @@ OnEnd(s, tr, e) ==
   LET op == s.ops[e.o]
       rep == op.reply
       stored == op.rpc /\ rep.src = "rpc"
-      expectPlain == op.kind = "unprotect" /\ ~(op.rpc /\ rep.src = "pub")
+      failed == op.rpc /\ rep.src = "err"
+      cancelled == e.res = "cancelled"
+      expectPlain == op.kind = "unprotect" /\ ~(op.rpc /\ rep.src = "pub") /\ ~failed /\ ~cancelled
       rk == IF op.rk = NoRk THEN tr.defrk ELSE op.rk
       s1 == IF e.res \in {"budget", "hang"} THEN Fail(s, "call_must_terminate") ELSE s
       s2 == IF expectPlain /\ e.res # "plain_ok" /\ e.res \notin {"budget", "hang"}
               THEN Fail(s1, "unprotect_result_differs_from_fresh_cache") ELSE s1
       s3 == IF op.kind = "unprotect" /\ ~expectPlain /\ e.res \in {"plain_ok", "plain_wrong"}
               THEN Fail(s2, "MACHINERY_plaintext_from_public_key_reply") ELSE s2
-      s4 == IF op.kind = "protect" /\ e.res # "blob_ok" /\ e.res \notin {"budget", "hang"}
+      s4 == IF op.kind = "protect" /\ ~failed /\ ~cancelled /\ e.res # "blob_ok" /\ e.res \notin {"budget", "hang"}
               THEN Fail(s3, "protect_blob_does_not_decrypt_with_fresh_cache") ELSE s3
       s5 == IF op.kind = "protect" /\ e.res = "blob_ok" /\
                (e.named # <<rk, op.sd, op.at[1], op.at[2], op.at[3]>>)
               THEN Fail(s4, "protect_names_wrong_key") ELSE s4
       s6 == IF op.predict /\ ~op.rpc /\ e.res \in {"plain_ok", "blob_ok"} THEN [s5 EXCEPT !.drift = @ + 1] ELSE s5
-  IN [s6 EXCEPT !.cache = IF stored THEN StoreIn(@, rep) ELSE @,
-                !.obtained = IF stored THEN ObtainIn(@, rep) ELSE @,
+      (* extended behaviour: a GetKey failure surfaces as an error of the call *)
+      s7 == IF failed /\ e.res \in {"plain_ok", "plain_wrong", "blob_ok", "blob_bad"} THEN Fail(s6, "EXT_getkey_failure_must_fail_the_call") ELSE s6
+  IN [s7 EXCEPT !.cache = IF stored /\ ~cancelled THEN StoreIn(@, rep) ELSE @,
+                !.obtained = IF stored /\ ~cancelled THEN ObtainIn(@, rep) ELSE @,
                 !.ops[e.o].open = FALSE]
 
 Step(s, tr, e) ==
